@@ -79,9 +79,9 @@ func Mermaid(spec *Spec, w io.WriteCloser, opts *MermaidOpts, fromNode, toNode s
 		nids[name] = nid
 
 		if n != nil && n.Action == nil {
-			fmt.Fprintf(w, "  %s(\"%s\")\n", nid, name)
+			fmt.Fprintf(w, "  %s(\"%s\")\n", nid, mermaidText(name))
 		} else {
-			fmt.Fprintf(w, "  %s[\"%s\"]\n", nid, name)
+			fmt.Fprintf(w, "  %s[\"%s\"]\n", nid, mermaidText(name))
 			if opts.ActionClass == "" {
 				if opts.ActionFill == "" {
 				} else {
@@ -150,4 +150,11 @@ func Mermaid(spec *Spec, w io.WriteCloser, opts *MermaidOpts, fromNode, toNode s
 	log.Printf("mermaid gen done")
 
 	return w.Close()
+}
+
+// mermaidText escapes a node name for use inside a quoted Mermaid
+// label: a double quote would end the label, and '#' starts an
+// entity code.
+func mermaidText(s string) string {
+	return strings.NewReplacer("#", "#35;", `"`, "#quot;").Replace(s)
 }
